@@ -227,6 +227,18 @@ pub const STMT_CORE: &[&str] = &[
     "return a, (f())",
     "return (a)",
     "return ((f()))",
+    // shapes found uncovered by the coverage audit
+    "for k, v in pairs({ a = 1, b = 2 }) do end",
+    "for k in ipairs{ 1, 2 } do f(k) end",
+    "for k, v in pairs({\n\ta = 1,\n}) do end",
+    "if a then\n\tf()\n\t-- c\nend",
+    "if a then\n\tf()\n\t\t-- c\nelse\n\tg()\n\t-- d\nend",
+    "repeat\n\tf()\n\t-- c\nuntil a",
+    "while a do\n\tf()\n    -- c\nend",
+    "function f()\n\treturn 1\n\t-- c\nend",
+    "local t = {\n\t1,\n\t-- c\n}",
+    "x = t[function() return 1 end]",
+    "x = a.b[c].d[e]",
     // multi-line tokens (line-ending conversion inside long strings and block comments)
     "local x = [[a\nb]]",
     "local x = [==[\na\n\nb]==]",
@@ -258,7 +270,7 @@ pub const STMT_CORE: &[&str] = &[
     "function f() return a; end",
 ];
 
-pub const STMT_L52: &[&str] = &["goto l", "::l::", "do goto l ::l:: end", "local s = \"a\\z\n   b\"", "local s = \"\\x41\""];
+pub const STMT_L52: &[&str] = &["goto l", "::l::", "local f = function() goto l end", "if a then goto l end", "function f() goto l end", "while a do goto l end", "do goto l ::l:: end", "local s = \"a\\z\n   b\"", "local s = \"\\x41\""];
 pub const STMT_L53: &[&str] = &[
     "local x = a // b",
     "local x = a & b | c ~ d",
@@ -355,6 +367,27 @@ pub const STMT_LUAU: &[&str] = &[
     "type T = Foo<Bar<T>>",
     "type T = Foo<(A, B)>",
     "type T = Foo<A...>",
+    "type T = {}",
+    "type T = { }?",
+    "type T = { a: {} }",
+    "type F = <T>(a: T) -> T",
+    "type F = <T...>(T...) -> T...",
+    "type F = (...number) -> ()",
+    "type F = (...T) -> ...T",
+    "type I = & A & B",
+    "type I = A & (B | C)",
+    "type U = (A & B)?",
+    "type U = (A | B)...",
+    "type T = { [(A | B)]: C }",
+    "type T = { [string]: (A | B)? }",
+    "type T = Foo<(A | B)>",
+    "type T = { read a: number, write b: string }",
+    "type T = { [\"k\"]: number }",
+    "type T = { a: \"x\" | \"y\" }",
+    "type T = (A?)?",
+    "type T = ((A) -> B)?",
+    "type T = (A) -> (B) -> C",
+    "type T = typeof(f())?",
     "type function f() end",
     "export type function f(a) return a end",
     "local x = a // b",
